@@ -3,6 +3,28 @@ import MosnVerif.Model.FilterChain
 namespace MosnVerif.Model.FilterChain
 open MosnVerif.Gen.FilterPhase
 
+/-! ### local replies and the held response parts (Gen.ProxyReply) -/
+
+/-- a header-only hijack CLEARS the held data, a hijack with body REPLACES it by its own -/
+@[simp] theorem hijack_data_eff (body held : Bool) : applyEff (hijackDataEff body) body held = body := by
+  cases body <;> rfl
+
+/-- both hijack paths clear the held trailers -/
+@[simp] theorem hijack_trailers_eff (body held : Bool) : applyEff (hijackTrailersEff body) false held = false := by
+  cases body <;> rfl
+
+/-- `SendDirectResponse(headers, nil, nil)` assigns both parts from its (absent) arguments -/
+@[simp] theorem direct_data_eff (held : Bool) : applyEff Gen.ProxyReply.directData false held = false := rfl
+@[simp] theorem direct_trailers_eff (held : Bool) : applyEff Gen.ProxyReply.directTrailers false held = false := rfl
+
+/-- `sendHijackReply[WithBody]` in closed form: the stored response is exactly this reply -/
+theorem sendHijack_eq (s : FState) (code : Nat) (body : Bool) :
+    sendHijack s code body = { s with statusVar := some code, resp := some ⟨body, false⟩, direct := true } := by
+  simp [sendHijack]
+
+@[simp] theorem sendDirect_eq (s : FState) : sendDirect s = { s with resp := some ⟨false, false⟩, direct := true } := by
+  simp [sendDirect]
+
 theorem recvSwitch_keep_iff (st : FStatus) : recvSwitch st = .keepReturn ↔ asksAgain st := by
   cases st <;> simp [recvSwitch, asksAgain]
 
@@ -321,8 +343,8 @@ theorem applyAct_reply (s : FState) (a : Act) (h : ActOK s) :
   obtain ⟨hc, hu⟩ := h
   cases a with
   | none => exact ⟨rfl, hc, hu⟩
-  | hijack k b => exact ⟨rfl, hc, fun _ => rfl⟩
-  | direct => exact ⟨rfl, hc, fun _ => rfl⟩
+  | hijack k b => exact ⟨by simp [applyAct, sendHijack, replyOf], by simpa [applyAct, sendHijack] using hc, fun _ => by simp [applyAct, sendHijack]⟩
+  | direct => exact ⟨by simp [applyAct, replyOf], by simpa [applyAct] using hc, fun _ => by simp [applyAct]⟩
   | terminate k =>
     simp only [applyAct, replyOf, hc, Bool.or_false]
     by_cases hr : s.resp.isSome = true
